@@ -82,9 +82,9 @@ func c12Shapes() []mb.Msg {
 		{PGP: 2, Parts: []mb.Part{p(""), {Type: "application/pgp-signature", Content: c12Text, Enc: "usascii"}}},                                                                                                // 26
 		{PGP: 1, Parts: []mb.Part{{Type: "application/pgp-encrypted", Content: []byte("Version: 1\r\n"), Enc: "usascii"}, {Type: "application/octet-stream", Content: c12Text}}, Attach: []mb.File{f("a.bin")}}, // 27
 		// every kind of header line go-mail writes: generic (one and several values, an empty one, a long one that is folded), preformatted, Cc / Reply-To
-		{Parts: []mb.Part{p("")}, Preform: [][2]string{{"X-Pre", "preformatted value;\r\n continued on a second line"}}},                                                                                                              // 28
+		{Parts: []mb.Part{p("")}, Preform: [][2]string{{"X-Pre", "preformatted value;\r\n continued on a second line"}}}, // 28
 		{Parts: []mb.Part{p(""), h}, Attach: []mb.File{f("a.bin")}, Gen: [][2]string{{"X-Gen", "generic value"}, {"X-Long", "a long generic value that has to be folded by the header writer because it exceeds the line length limit"}}, GenEmpty: []string{"X-Empty"}, Preform: [][2]string{{"X-Pre-A", "first"}, {"X-Pre-B", "second;\r\n\tfolded"}}, Cc: []string{"cc1@rcp.example", "cc2@rcp.example"}, ReplyTo: "reply@snd.example"}, // 29
-		{Parts: []mb.Part{p("")}, Preform: [][2]string{{"X-Pre", "signed and preformatted"}}, SMIME: 2},                                                                                                                                // 30
+		{Parts: []mb.Part{p("")}, Preform: [][2]string{{"X-Pre", "signed and preformatted"}}, SMIME: 2}, // 30
 	}
 }
 
